@@ -62,6 +62,10 @@ class LogFns(Fns):
     def sortkey(self, stage):
         return SortKey(self.log, stage)
 
+    def groupfn(self, mod, stage):
+        from ..terms import GroupFn
+        return GroupFn(mod, self.log, stage)
+
 
 def per_stage(calls):
     d = collections.defaultdict(list)
